@@ -28,7 +28,9 @@ func Run(prop, tier, repo, verif string, lo engine.LoadOpts) int {
 		return 2
 	}
 	lo.RepoDir = repo
-	lo.Whole = (tier == "thorough" && wholeProgram[prop]) || os.Getenv("RCHECK_WHOLE") == "1"
+	// thorough tier: dependencies are loaded with bodies, so the VTA call graph (cones, who-may
+	// tables, lock summaries) also sees callbacks that third-party code makes into receptor
+	lo.Whole = tier == "thorough" || os.Getenv("RCHECK_WHOLE") == "1"
 	p, err := engine.Load(lo)
 	if err != nil {
 		fmt.Println("CHECKER-BROKEN:", err)
@@ -48,8 +50,6 @@ func Run(prop, tier, repo, verif string, lo engine.LoadOpts) int {
 	return r.Finish(verif)
 }
 
-// properties whose thorough tier needs bodies of dependencies
-var wholeProgram = map[string]bool{}
 
 // RunMany loads the program once and runs several property checks on it (used by the
 // development helper -try-patch; registered commands always run one property per process).
